@@ -12,7 +12,7 @@ for p in props:
     i=p['id']
     if i in claims["claimed"]:
         c=claims["claimed"][i]
-        m["checks"].append({"property_id":i,"quick_cmd":f"./check {i}","thorough_cmd":f"VERIF_TIER=thorough ./check {i}","evidence_file":f"/verif/evidence/{i}.json","replay_cmd_template":"cat {path}","engine":"govc","level_claimed":{"category":"proof","text":c["text"],"design_ref":i},"level_note":c["note"],"technique":c.get("technique","contract-based deductive verification (VCs from go/ssa, SMT)")})
+        m["checks"].append({"property_id":i,"quick_cmd":f"./check {i}","thorough_cmd":f"VERIF_TIER=thorough ./check {i}","evidence_file":f"/verif/evidence/{i}.json","replay_cmd_template":"tools/replay.sh {path}","engine":"govc","level_claimed":{"category":"proof","text":c["text"],"design_ref":i},"level_note":c["note"],"technique":c.get("technique","contract-based deductive verification (VCs from go/ssa, SMT)")})
     else:
         m["not_applicable"].append({"property_id":i,"reason":claims["not_applicable"].get(i,"not yet claimed: contracts for this property are still being built (see DESIGN.md)")})
 json.dump(m,open('/verif/MANIFEST.json','w'),indent=1)
